@@ -12,6 +12,7 @@ mod c06;
 mod c08;
 mod c09;
 mod c10;
+mod c11;
 mod c07;
 mod c14;
 mod c20;
@@ -56,6 +57,7 @@ fn main() {
         "C08" => c08::run(&o),
         "C09" => c09::run(&o),
         "C10" => c10::run(&o),
+        "C11" => c11::run(&o),
         "C07" => c07::run(&o),
         "C14" => c14::run(&o),
         "C20" => c20::run(&o),
